@@ -373,6 +373,8 @@ ABSTRACT["C16"] = abs_c16
 
 import tunsrv
 import tuncli
+import tunraw
+ABSTRACT["TRAW"] = tunraw.abstract
 ABSTRACT["TSRV"] = tunsrv.abstract
 ABSTRACT["TCLI"] = tuncli.abstract
 
